@@ -144,6 +144,8 @@ def run(ctx):
                         scope=lambda q_, b_: q_.rsplit('::', 1)[-1].startswith('insert'))
         _keyremap(ctx, cfg, prog)
         _policykeep(ctx, cfg, prog, ctx.mod(cfg))
+        import verdict
+        verdict.rule(ctx, cfg, prog)
         import twins
         ctx.rule('TWIN', 'insert and insert_with_statistics call the same functions (statistics bookkeeping aside)')
         twins.check(ctx, cfg, prog, 'TWIN', lambda q_: q_.rsplit('::', 1)[-1].startswith('insert'), 1)
